@@ -1396,6 +1396,10 @@ fn c13_end_to_end(ctx: &Ctx, sink: &mut Sink) -> Value {
         if let Some(u) = v["unavailable"].as_str() {
             return json!({"skipped": format!("the sandbox does not allow it: {u}")});
         }
+        if crate::procmc::e2e::too_slow(&v) {
+            report.push(json!({"scenario": sc.name, "verdict": crate::procmc::e2e::slow_note(&v)}));
+            continue;
+        }
         let pubs = v["publications"].as_array().cloned().unwrap_or_default();
         let doc = json!({"check": "C13", "phase": "end to end through the release binary", "scenario": sc.name, "command_line": sc.args, "observed": v});
         // (status 1 = Synchronized) expected PHC addend per publication
@@ -1476,6 +1480,10 @@ fn c12_end_to_end(ctx: &Ctx, sink: &mut Sink) -> Value {
                 continue;
             }
             return json!({"skipped": format!("the sandbox does not allow it: {u}")});
+        }
+        if crate::procmc::e2e::too_slow(&v) {
+            report.push(json!({"scenario": sc.name, "verdict": crate::procmc::e2e::slow_note(&v)}));
+            continue;
         }
         let arrivals: Vec<i128> = v["chronyd_request_arrivals_mono_ns"].as_array().map(|a| a.iter().filter_map(|x| x.as_str().and_then(|s| s.parse().ok())).collect()).unwrap_or_default();
         let pubs = v["publications"].as_array().cloned().unwrap_or_default();
